@@ -54,3 +54,20 @@ Proof. exact session_no_overwrite. Qed.
 
 Print Assumptions C12_session_log.
 Print Assumptions C12_session_no_overwrite.
+
+(* ---- a test that CHANGES the testcase file while it runs (Model/Scribble.v: `scr k file` = what test k leaves at
+   the path; run_s = run with such a test).  Lithium never reads the file back, so the run is the same run; what it
+   keeps, logs and restores is the candidate it wrote, never what the test left behind ---- *)
+From Lithium Require Import Scribble ScribbleProofs.
+
+(* C02 (kill) / C12 for such tests: the temp dir is the log of the CANDIDATES, not of what the test left *)
+Theorem C12_log_test_changes_file :
+  forall S (strat : strategy S) verdict scr fuel tc0 file0,
+    content tc0 = file0 ->
+    let w := result_world (run_s strat verdict scr fuel tc0 file0) in
+    rev (w_temp w) = (Original, file0) :: expected_temp (chron w) /\
+    numbered_from 1 (tests_of (chron w)) /\
+    w_tests w = n_tests (chron w).
+Proof. exact run_s_temp_log. Qed.
+
+Print Assumptions C12_log_test_changes_file.
